@@ -161,11 +161,32 @@ def job_lookup():
         f = _load(l)
         mods['orderl%d' % l] = types.SimpleNamespace(calc_inclination=f['calc_inclination'], calc_inclination_off=f['calc_inclination_off'])
     res = []
+    # the package-level names are bound the way the package binds them: through the `from .orderlN import X as Y` lines of the CURRENT __init__.py (a dropped `_off` on one import
+    # line changes every handle built from that name)
+    import ast as _ast
+    init_rel = 'TidalPy/tides/inclination_funcs/__init__.py'
+    init_src = open(loader.repo_path(init_rel)).read()
+    init_tree = _ast.parse(init_src)
     ns = {}
+    for node in init_tree.body:
+        if isinstance(node, _ast.ImportFrom) and node.level == 1 and (node.module or '') in mods:
+            for al in node.names:
+                ns[al.asname or al.name] = getattr(mods[node.module], al.name, None)
+    for node in init_tree.body:
+        if isinstance(node, _ast.Assign) and getattr(node.targets[0], 'id', None) in ('inclination_functions_on', 'inclination_functions_off', 'inclination_functions'):
+            exec(compile(_ast.Module(body=[node], type_ignores=[]), init_rel, 'exec'), ns)
+    loader.ENCODED.append({'file': init_rel, 'function': 'imports and module-level lookup dictionaries', 'sha256_16': solve.sha_of(init_src)})
+
+    def rp_pkg(l, on):
+        return replay.lookup_replay('TidalPy.tides.inclination_funcs', 'inclination_functions', lambda md: [(on, l, 'orderl%d.calc_inclination%s' % (l, '' if on else '_off'))], 'wrong degree table')
     for l in range(2, 8):
-        ns['calc_inclin_l%d' % l] = mods['orderl%d' % l].calc_inclination
-        ns['calc_inclin_l%d_off' % l] = mods['orderl%d' % l].calc_inclination_off
-    g, _ = loader.load_py('TidalPy/tides/inclination_funcs/__init__.py', ['get_inclination_func'], ns)
+        for on in (True, False):
+            want = mods['orderl%d' % l].calc_inclination if on else mods['orderl%d' % l].calc_inclination_off
+            nm = 'calc_inclin_l%d%s' % (l, '' if on else '_off')
+            got = ns.get('inclination_functions', {}).get(on, {}).get(l)
+            res.append(discharge(Obligation('package handles: %s and inclination_functions[%s][%d] are orderl%d.calc_inclination%s' % (nm, on, l, l, '' if on else '_off'),
+                                            z3.BoolVal(ns.get(nm) is want and got is want), [], with_axioms=False, with_dens=False, replay=rp_pkg(l, on), key='lookup:package:%d:%s' % (l, on))))
+    g, _ = loader.load_py(init_rel, ['get_inclination_func'], ns)
     def rp_get(l, on):
         def rp(md):
             r = replay.call1('TidalPy.tides.inclination_funcs', 'get_inclination_func', l, on)
